@@ -82,6 +82,16 @@ func DrawConfig(r *Rng, p *Profile, tiny bool) Config {
 	if r.Chance(0.5) {
 		cfg.Perm = r.Perm(NumTypes)
 	}
+	if !tiny && !p.Tiny && cfg.Offset <= 104 && r.Chance(0.35) {
+		// the universe types are spread over several mask words; with a gap of 41..63 some pairs
+		// of them get IDs that are congruent modulo 64 (the same bit in different words)
+		cfg.Split = r.Range(1, NumTypes-1)
+		if r.Chance(0.75) {
+			cfg.Gap = r.Range(41, 63)
+		} else {
+			cfg.Gap = r.Range(64, 120)
+		}
+	}
 	// universe subset the generator draws free component lists from
 	n := r.Range(5, 12)
 	perm := r.Perm(NumTypes)
